@@ -334,6 +334,15 @@ def run_shard(ctx):
             for sep in (', ', ' '):
                 for rhs in (RHS if len(combo) == 2 else RHS[:2]):
                     one_input(ctx, budget, sep.join(combo) + ' = ' + rhs, 'lhs-list', errors)
+        # 3d. a statement with several targets next to statements that are not valid Python once translated, before and after it:
+        #     every statement is checked, however many symbols the others carry
+        MULTI = ['A, B = C, D', 'A, B, K = 1, 2, 3', 'P, Q = Q[-1], P[-1]']
+        BROKEN = ['E = X +', 'Y = C + G = X - M', 'YD = *Y', 'F = 0.5(B)', 'H = (X', 'Z = X Y', '`x = (`']
+        for k3, (mt, br) in enumerate(itertools.product(MULTI, BROKEN)):
+            if not ctx.mine(k3):
+                continue
+            for script in (f'{mt}\n{br}', f'{br}\n{mt}', f'W = 1\n{mt}\nV = W\n{br}', f'{mt}\n{mt.replace("A", "A2").replace("B", "B2").replace("P", "P2").replace("Q", "Q2").replace("K", "K2")}\nV = 2\n{br}'):
+                one_input(ctx, budget, script, 'multi-target-with-broken-statement', errors)
         # 4. mutation fuzzing of valid scripts
         rp = gen.RandomPrograms(rng, max_depth=3, max_eqs=4, max_names=6, big_offsets=True, underscore_rate=0.05, funcvar_rate=0.05, conflict_rate=0.1)
         for i in range(ctx.pick(300, 18000)):
